@@ -762,6 +762,7 @@ def makerandCIJ_und(n, k, seed=None):
 
     CIJ = np.zeros((n, n))
     CIJ.flat[ix[rp][:k]] = 1
+    CIJ = CIJ + CIJ.T  # symmetrize
     return CIJ
 
 
